@@ -478,6 +478,26 @@ func c07GenPW(rng *rand.Rand) (knots []c07Knot, step float64) {
 			V: F64(float64(lv[2*i+1]) / float64(den)),
 		})
 	}
+	// a minority with full-mantissa break points and levels (the float64 evaluation of a ramp is
+	// then rounded; jumps and flats are still exact because only comparisons are involved)
+	if rng.Intn(10) == 0 {
+		prev := 0.0
+		for i := range knots {
+			knots[i].X = F64(float64(knots[i].X) + step*rng.Float64()/8)
+			l := float64(knots[i].L) + (rng.Float64()-0.5)/4096
+			v := float64(knots[i].V) + (rng.Float64()-0.5)/4096
+			if i == 0 {
+				l = 0
+			}
+			l = math.Min(1, math.Max(prev, l))
+			v = math.Min(1, math.Max(l, v))
+			if i == n-1 {
+				v = 1
+			}
+			knots[i].L, knots[i].V = F64(l), F64(v)
+			prev = v
+		}
+	}
 	return
 }
 
